@@ -150,9 +150,10 @@ def scenario(ctx):
         return
 
     if case == 'hybrid_seq':
-        rseed = t.draw(1000)
+        rseed = 0 if t.flag(1, 8) else t.draw(1000)        # zero is a seed like any other
         T = t.irange(1, 5)
         form = 'estimator' if t.flag(1, 4) else 'function'
+        late = (1 + t.draw(2)) if (form == 'estimator' and t.flag(1, 3)) else 0
         prr = mpi and form == 'function' and t.flag()
         if prr:
             ctx.hit('per_rank_generators')
@@ -160,7 +161,7 @@ def scenario(ctx):
         mcosts = []
         K0 = None
         for it in range(0, T + 1):
-            g = run(dict(algo='hybrid', form=form, k=k, cutoff=cutoff, n_iters=it, random_state=rseed, per_rank_rng=prr), suffix=str(it))
+            g = run(dict(algo='hybrid', form=form, k=k, cutoff=cutoff, n_iters=it, random_state=rseed, per_rank_rng=prr, late_params=late), suffix=str(it))
             centres_are_frames(P, g, 'k-hybrid n_iters=%d:' % it)
             if K0 is None:
                 K0 = len(g.ci)
@@ -186,7 +187,7 @@ def scenario(ctx):
         return
 
     if case == 'cold_seq':
-        rseed = t.draw(1000)
+        rseed = 0 if t.flag(1, 8) else t.draw(1000)        # zero is a seed like any other
         kk = t.irange(1, min(6, P.n))
         T = t.irange(2, 5)
         costs = []
@@ -214,7 +215,7 @@ def scenario(ctx):
         g0 = run(dict(algo='kcenters', form='function', k=k, cutoff=cutoff))
         st = clrun.State.of(g0)
         K = len(st.ci)
-        rseed = t.draw(1000)
+        rseed = 0 if t.flag(1, 8) else t.draw(1000)        # zero is a seed like any other
         n_iters = t.irange(1, 3)
         which = t.draw(3)
         if which == 0:
@@ -237,7 +238,7 @@ def scenario(ctx):
         return
 
     # ---- reproducibility
-    rseed = t.draw(1000)
+    rseed = 0 if t.flag(1, 8) else t.draw(1000)        # zero is a seed like any other
     n_iters = t.irange(1, 4)
     if not mpi and t.flag(1, 4):
         # estimator form: two objects built from the same seed give the same clustering; a second fit() of one object on
